@@ -16,8 +16,8 @@ CHECKS = {
    "Closed-state RSTs with the literal SEQ=0 are lost in both runs (their effect legitimately depends on ISNs).",
    "deterministic simulation: differential replay of one seeded schedule under shifted ISNs"),
  "C17": ("E1 tcbsim (Byzantine peer)", "exploration", "6 C17",
-   "Forged segments (all 64 flag combinations, seq/ack around window edges, shrinking windows, payloads) injected between legitimate events of seeded schedules; oracles: no Tcb call unwinds, no data beyond any advertised right edge, SND.WND/WL1/WL2 follow RFC 9293 3.10.7.4 for every segment processed on its own, provably unacceptable segments have no immediate effect.",
-   "Above-window segments that the stack retains in its reordering queue are treated as delayed arrivals (no assertion on their later effect).",
+   "Forged segments (all 64 flag combinations, seq/ack around window edges, shrinking windows, payloads) injected between legitimate events of seeded schedules; oracles: no Tcb call unwinds, no data beyond any advertised right edge, SND.WND/WL1/WL2 follow RFC 9293 3.10.7.4 for every segment processed on its own, provably unacceptable segments have no immediate effect. Second scenario (C17.stack, engine E2): the C01.stack scenario (real Tcp, TcpSession, Ipv4, Arp, Pci, Network) with a third machine that forges segments from the peer's address and port into established connections - all 64 flag combinations including RST and SYN, any acknowledgment number and window, text, sequence number 2^30 above or below what the victim expects; the streams must still be delivered completely and exactly once, no legitimate endpoint resets, the wire falls silent.",
+   "Above-window segments that the stack retains in its reordering queue are treated as delayed arrivals (no assertion on their later effect). The E2 scenario forges only segments that are unacceptable under every reading (2^30 away from the window) and only into connections both applications know to be established; in-window forgeries legitimately change a stream and are left to E1's per-call oracles.",
    "deterministic simulation: seeded fault injection of forged segments into simulated connections"),
  "C11": ("E3 fragsim", "exploration", "6 C11",
    "Seeded search over arrival schedules of real fragments (produced by the real fragmenter through MTU chains) into the real Reassembly: permutation, interleaving across datagrams, loss, duplication before and after completion, overlapping pieces, and reassembly timers on a virtual clock; reference interval-set model decides when a datagram must be returned and when a buffer must be gone; returned header and payload are compared byte for byte.",
